@@ -15,4 +15,7 @@ func init() {
 	mut("C07", "inflight-not-marked-close", "proxy.go", "if req.Close || res.Close || p.Closing() {", "if req.Close || res.Close {", "C07.R4", "p.Closing()")
 	twin("C07", "closing-test-as-switch", "proxy.go", "\t\tif p.Closing() {\n\t\t\treturn nil\n\t\t}\n\n\t\tconn, err := l.Accept()", "\t\tswitch closing := p.Closing(); {\n\t\tcase closing:\n\t\t\treturn nil\n\t\t}\n\n\t\tconn, err := l.Accept()")
 	twin("C07", "deferred-unlock-in-close", "proxy.go", "\tp.connsMu.Lock()\n\tp.conns.Wait()\n\tp.connsMu.Unlock()\n\tlog.Infof(\"martian: all connections closed\")", "\tfunc() {\n\t\tp.connsMu.Lock()\n\t\tdefer p.connsMu.Unlock()\n\t\tp.conns.Wait()\n\t}()\n\tlog.Infof(\"martian: all connections closed\")")
+	mut("C07", "read-on-the-selecting-goroutine", "proxy.go", "\terrc := make(chan error, 1)\n\tgo func() {", "\terrc := make(chan error, 1)\n\tfunc() {", "C07.R3", "own goroutine")
+	mut("C07", "closing-poll-always-false", "proxy.go", "\tcase <-p.closing:\n\t\treturn true\n", "\tcase <-p.closing:\n\t\treturn false\n", "C07.R3", "Closing: true exactly")
+	mut("C07", "unbuffered-result-channel", "proxy.go", "\terrc := make(chan error, 1)\n", "\terrc := make(chan error)\n", "C07.R6", "cannot park forever")
 }
